@@ -318,6 +318,7 @@ structure St where
   heap : Array Frame
   css : Array (String × String × Option String)   -- selector, property, value text (none: invalid CSS value)
   log : Array (String × String)                   -- kind (debug|warn), message
+  work : Nat := 300000                            -- statements still allowed (nested loops multiply)
 deriving Inhabited
 
 inductive Res (α : Type) where
@@ -342,6 +343,10 @@ def fail (e : Err) : M α := fun st => .err e st
 def outOfFuel : M α := fun _ => .oof
 def getSt : M St := fun st => .ok st st
 def modifySt (f : St → St) : M Unit := fun st => .ok () (f st)
+
+/-- One statement's worth of work; a program that needs more than the budget is outside the model. -/
+def tick : M Unit := fun st =>
+  if st.work == 0 then .err .unsupported st else .ok () { st with work := st.work - 1 }
 
 def liftPrint (x : Except PrintErr String) : M String :=
   match x with
@@ -854,7 +859,7 @@ def loopF (r : Rec) (ctx : Ctx) (c : Expr) (body : List Stmt) : M (Option Value)
 
 def stepF (r : Rec) : Rec where
   expr := exprF r
-  block := fun ctx ss => forEachM (stmtF r ctx) ss
+  block := fun ctx ss => forEachM (fun s => do tick; stmtF r ctx s) ss
   loop := loopF r
 
 def Rec.bottom : Rec where
